@@ -34,6 +34,7 @@ CLASS = [
     ("drainOrder", "defer:nodeless-defer-between-loop-defers"),
     ("staleFrame", "defer:stale-frame-after-panic-in-last-replayed-call"),
     ("regResult", "defer:named-result-in-register-reverts-after-longjmp-O2"),
+    ("resultBeforeRun", "defer:rangefunc-owner-returns-results-read-before-implicit-rundefers"),
     ("nestedRecover", "defer:recovered-nested-panic-clears-outer-panic"),
     ("recoverIndirect", "defer:recover-not-called-directly-recovers"),
 ]
@@ -142,9 +143,57 @@ def load_corpus():
     return out
 
 
+class BackendCrash(Exception):
+    pass
+
+
+def _is_backend_crash(text):
+    """llgo died inside LLVM 14's code generator (cgo call), not in its own Go code"""
+    return "signal arrived during cgo execution" in text and "_Cfunc_LLVM" in text
+
+
+def isolate_backend_crash(ctx, cases, opt):
+    """bisect the layouts whose code crashes LLVM 14 (the sandbox's LLVM; llgo targets LLVM 19) -> list of cases"""
+    bad, work = [], [list(cases)]
+    n = 0
+    while work and n < 40:
+        cur = work.pop()
+        n += 1
+        d = os.path.join(ctx.scratch, "bisect")
+        shutil.rmtree(d, ignore_errors=True)
+        e2e.write_module(d, dg.render_program([{"name": c["name"], "fns": c["fns"]} for c in cur]), modname="verifdefer")
+        b = e2e.llgo_build(ctx, d, os.path.join(d, "x"), opt)
+        if b.returncode == 0:
+            continue
+        if len(cur) == 1:
+            bad.append(cur[0])
+            continue
+        h = len(cur) // 2
+        work += [cur[:h], cur[h:]]
+    return bad
+
+
 def build_batch(ctx, tag, cases, kinds_bin, want_ref=True):
-    """render, classify with the real cl/blocks, compile with llgo -O0/-O2 and the reference toolchain"""
+    """render, classify with the real cl/blocks, compile with llgo -O0/-O2 and the reference toolchain.
+    Layouts on which LLVM 14's code generator crashes are dropped from `cases` (in place) and listed in the evidence."""
+    for attempt in range(3):
+        try:
+            return _build_batch(ctx, tag, cases, kinds_bin, want_ref)
+        except BackendCrash as e:
+            opt = e.args[0]
+            bad = isolate_backend_crash(ctx, cases, opt)
+            if not bad:
+                raise HarnessBuildError("llgo build %s crashed in the LLVM backend and no single layout reproduces it" % opt)
+            for c in bad:
+                ctx.log("LLVM 14 backend crash at %s on layout %s: dropped (sandbox toolchain, not judged)" % (opt, c["name"]))
+                ctx.coverage.setdefault("llvm14_backend_crashes", []).append({"opt": opt, "layout": dg.dumps(c)})
+                cases.remove(c)
+    raise HarnessBuildError("llgo build keeps crashing in the LLVM backend")
+
+
+def _build_batch(ctx, tag, cases, kinds_bin, want_ref=True):
     d = os.path.join(ctx.scratch, "prog-" + tag)
+    shutil.rmtree(d, ignore_errors=True)
     files = dg.render_program(cases)
     e2e.write_module(d, files, modname="verifdefer")
     p = sh([kinds_bin, os.path.join(d, "main.go"), os.path.join(d, "read_llgo.go")])
@@ -156,6 +205,8 @@ def build_batch(ctx, tag, cases, kinds_bin, want_ref=True):
         t = time.time()
         out = os.path.join(d, "prog" + opt)
         b = e2e.llgo_build(ctx, d, out, opt)
+        if b.returncode != 0 and _is_backend_crash(b.stdout + b.stderr):
+            raise BackendCrash(opt)
         if b.returncode != 0 or not os.path.exists(out):
             raise HarnessBuildError("llgo build %s of the generated defer program failed:\n%s" % (opt, (b.stdout + b.stderr)[-4000:]))
         ctx.log("llgo build %s of %d layouts: %.1fs" % (opt, len(cases), time.time() - t))
@@ -288,6 +339,12 @@ def run(ctx, args):
                 nontrivial.add(prog)
             if len(samples) < 3 and nd >= 3:
                 samples.append({"layout": dg.dumps(case), "encoded": prog, "llgo-O0": real["-O0"], "go": ref, "model": m0, "spec": sp})
+            # (0) the reference toolchain itself crashed (Go runtime `fatal error`, never a legitimate outcome of these
+            #     programs; go1.24.0 does so after a recovery among range-over-func defers): the layout cannot be judged
+            if ref[0].startswith("crash"):
+                stats["reference_unusable"] = stats.get("reference_unusable", 0) + 1
+                ctx.log("reference toolchain crashed on", case["name"], "- layout not judged")
+                continue
             # (1) spec validation against the reference toolchain
             if (sp[0], sp[2]) != ref:
                 stats["spec_vs_go_mismatch"] += 1
